@@ -744,6 +744,20 @@ def canon_stateful(evs):
     return out
 
 
+def scenario_suite_mismatches(evs):
+    """scenario events whose `suite_id` is not the id of the suite that is open when they are delivered"""
+    open_suite, bad = None, []
+    for i, e in enumerate(evs):
+        k = ev_kind(e)
+        if k == "SuiteStarted":
+            open_suite = e.id
+        elif k == "SuiteFinished":
+            open_suite = None
+        elif k in ("ScenarioStarted", "ScenarioFinished") and e.suite_id != open_suite:
+            bad.append([i, k])
+    return bad
+
+
 def drive_stateful_thread(suites, max_failures=None):
     """real `execute_state_machine_loop` with a scripted state machine class; returns the canonical events it put"""
     import unittest
@@ -1148,7 +1162,8 @@ class MachineRig:
                 "stepStatus": None if s.current_step_status is None else STATUS[s.current_step_status],
                 "completed": s.completed_scenarios,
                 "outcomes": sorted([keyof.get(h, -1), kind(o)] for h, o in s.step_outcomes.items()),
-                "out": canon_stateful(self._evs), "recorded": sorted(rec), "calls": self.calls}
+                "out": canon_stateful(self._evs), "recorded": sorted(rec), "calls": self.calls,
+                "suiteIdMismatch": scenario_suite_mismatches(self._evs)}
 
 
 def canon_model_state(m):
@@ -1167,7 +1182,9 @@ def canon_model_state(m):
     # the model numbers scenarios by id; the rig numbers *machines* (a failed setup constructs none): same numbering
     rec = sorted([ren.get(i, i), f] for i, f in m["recorded"])
     return {"ctl": m["ctl"], "seenRun": sorted(set(m["seenRun"])), "seenSuite": sorted(set(m["seenSuite"])), "stepStatus": m["stepStatus"],
-            "completed": m["completed"], "outcomes": sorted(outs), "out": out, "recorded": rec, "calls": m["calls"]}
+            "completed": m["completed"], "outcomes": sorted(outs), "out": out, "recorded": rec, "calls": m["calls"],
+            # in the model a scenario's events are built under the suite they are put in: no event names another suite
+            "suiteIdMismatch": []}
 
 
 @contextmanager
@@ -1512,6 +1529,11 @@ def stateful_machine_checks(chk, n_ops, n_thread, prop):
         bad = sm_stream_violation(state["out"])
         if bad:
             chk.violation(f"{prop}:stateful:thread-stream-not-well-nested", bad, {**inp, "out": state["out"]})
+        if state.get("suiteIdMismatch"):
+            chk.violation(f"{prop}:stateful:scenario-carries-the-id-of-another-suite-than-the-one-it-is-nested-in",
+                          f"{len(state['suiteIdMismatch'])} scenario events carry a suite_id that is not the open suite's "
+                          f"(first: event #{state['suiteIdMismatch'][0][0]} {state['suiteIdMismatch'][0][1]})",
+                          {**inp, "out": state["out"], "mismatches": state["suiteIdMismatch"][:6]})
         # C12: a stop requested before an iteration begins (before its is_interrupted test): no scenario is started any more
         k_stop = next((k for k, r in enumerate(inp["runs"]) if r.get("stopBeforeSuite")), None)
         earlier_stop = k_stop is not None and any(stp.get("stopBefore") or stp["call"] in ("interrupted", "baseExc")
